@@ -6,6 +6,7 @@
    were written from (tools/regen/gen_srcpins.py; a changed function breaks its Gen/Pin_*.v and this file with it) *)
 From SqlModel.Gen Require Pin_filters_tokens Pin_filters_stripcomments Pin_filters_serializer Pin_filters_others_module Pin_api_glue Pin_formatter_module Pin_sql_tree.
 From SqlModel.Inst Require PassTabOk.   (* the grouping tables and driver pins of Group/Passes.v equal the ones regenerated from the source *)
+From SqlModel.Filters Require SerializerSpecFacts.   (* every format() result goes through SerializerUnicode: its specification over the regenerated SPLIT_REGEX (quoted pieces are kept) must still hold *)
 From SqlModel.Gen Require LexPins.   (* the scan loop, is_keyword, consume and the class-level state of sqlparse/lexer.py have the pinned shape *)
 From SqlModel Require Import Base PyStr Re Lexer TokFilters TokFiltersCur TokFiltersFacts CaseDefs.
 From SqlModel.Gen Require Import CaseTabs.
